@@ -380,3 +380,25 @@ mod tests {
         }
     }
 }
+
+#[cfg(feature = "verif_hooks")]
+impl SendChannelUnreliable {
+    pub(crate) fn verif_memory(&self) -> (usize, usize) {
+        (self.memory_usage_bytes, self.max_memory_usage_bytes)
+    }
+
+    pub(crate) fn verif_set_sliced_message_id(&mut self, id: u64) {
+        self.sliced_message_id = id;
+    }
+}
+
+#[cfg(feature = "verif_hooks")]
+impl ReceiveChannelUnreliable {
+    pub(crate) fn verif_memory(&self) -> (usize, usize) {
+        (self.memory_usage_bytes, self.max_memory_usage_bytes)
+    }
+
+    pub(crate) fn verif_partial_messages(&self) -> usize {
+        self.slices.len()
+    }
+}
